@@ -20,6 +20,7 @@ def between (x a b : String) : String :=
   | _ => ""
 
 def step (cs : CState) (fs : List String) (obs : String) : CState × String × String :=
+  if obs.startsWith "HANG" then (cs, "completes", "bad:tunnel-never-given-a-certificate") else
   match fs with
   | ["ce", "reset"] => ({}, "ok", "ok")
   | ["ce", "split", hp] =>
